@@ -486,4 +486,66 @@ example : (match loadFile tinySpec [tinyDoc "on", tinyDoc "level"] [] with
     | _ => []) = [((["power"], "on"), false), ((["power"], "level"), true)] := by decide +kernel
 example : loadFile tinySpec [tinyDoc "on", tinyDoc "on"] [] = .duplicate (["power"], "on") := by decide +kernel
 
+/-! ## the workspace of the dependent program: decoys further down the search order never win -/
+
+theorem locate_first_file {α : Type} (pre post : List (Slot α)) (a : α) (h : ∀ s ∈ pre, s.isFile = false) :
+    locate (pre ++ .file a :: post) = some a := by
+  induction pre with
+  | nil => rfl
+  | cons s rest ih =>
+    have hs : s.isFile = false := h s (by simp)
+    have hr := ih (fun x hx => h x (by simp [hx]))
+    cases s with
+    | file b => simp [Slot.isFile] at hs
+    | absent => simpa [locate] using hr
+    | dir => simpa [locate] using hr
+
+/-- what stands *behind* the first regular file in the search order is irrelevant -/
+theorem locate_decoys_irrelevant {α : Type} (pre post post' : List (Slot α)) (a : α) (h : ∀ s ∈ pre, s.isFile = false) :
+    locate (pre ++ .file a :: post) = locate (pre ++ .file a :: post') := by
+  rw [locate_first_file pre post a h, locate_first_file pre post' a h]
+
+/-- **search order**: a file reachable by the literal as given wins over everything; the file next to the IDL file wins over
+    every include directory; an include directory wins over the later ones (directories of that name are skipped) -/
+theorem asGiven_first {α : Type} (a : α) (own : Slot α) (incs : List (Slot α)) :
+    locate (searchOrder (.file a) own incs) = some a := rfl
+
+theorem nextToIdl_before_includeDirs {α : Type} (given : Slot α) (hg : given.isFile = false) (a : α) (incs : List (Slot α)) :
+    locate (searchOrder given (.file a) incs) = some a :=
+  locate_first_file [given] incs a (by simpa using hg)
+
+theorem includeDirs_in_order {α : Type} (given own : Slot α) (hg : given.isFile = false) (ho : own.isFile = false)
+    (pre post : List (Slot α)) (hp : ∀ s ∈ pre, s.isFile = false) (a : α) :
+    locate (searchOrder given own (pre ++ .file a :: post)) = some a := by
+  have := locate_first_file (given :: own :: pre) post a (by
+    intro s hs
+    rcases List.mem_cons.mp hs with rfl | hs
+    · exact hg
+    rcases List.mem_cons.mp hs with rfl | hs
+    · exact ho
+    · exact hp s hs)
+  simpa [searchOrder] using this
+
+/-- **extern_loads_export**: when the first regular file in the search order is the file the yaml target wrote for `ds`, the
+    dependent program starts from the registry of that export — whatever other exports of the same names (other kinds, other
+    naming configuration) stand further down — and (`export_registered`) finds every declaration under its qualified name. -/
+theorem extern_loads_export (spec : ExtSpec) (ds : List LocalDecl) (pre post : List (Slot (List Doc)))
+    (h : ∀ s ∈ pre, s.isFile = false) :
+    externRegistry spec (pre ++ .file (ds.map «export») :: post) = some (loadFile spec (ds.map «export») []) := by
+  simp [externRegistry, locate_first_file pre post _ h]
+
+theorem extern_export_registered (spec : ExtSpec) (ds : List LocalDecl) (pre post : List (Slot (List Doc)))
+    (h : ∀ s ∈ pre, s.isFile = false) (reg : List Entry)
+    (hr : externRegistry spec (pre ++ .file (ds.map «export») :: post) = some (.ok reg))
+    (d : LocalDecl) (hd : d ∈ ds) (ns : List String) (n : String)
+    (h1 : lookup "namespace" d.base.fields = some (.list ns)) (h2 : lookup "name" d.base.fields = some (.str n)) :
+    ∃ en ∈ reg, en.key = (ns, n) := by
+  rw [extern_loads_export spec ds pre post h] at hr
+  exact export_registered spec ds reg (Option.some.inj hr) d hd ns n h1 h2
+
+/-- non-vacuity: a decoy in an include directory, a directory of that name in the working directory -/
+example : locate (searchOrder (.dir : Slot String) (.file "app/ext/t.yaml") [.file "vendor/ext/t.yaml"]) = some "app/ext/t.yaml" := by decide
+example : locate (searchOrder (.absent : Slot String) .absent [.absent, .dir, .file "inc3/t.yaml", .file "inc4/t.yaml"]) = some "inc3/t.yaml" := by decide
+example : locate (searchOrder (.absent : Slot String) .dir [.absent]) = none := by decide
+
 end Pydjinni.C13
